@@ -197,13 +197,26 @@ CLAIMS["C12"] = {
             "GromacsRunner and the MD programs themselves are outside",
     "technique": TECH,
 }
+CLAIMS["C13"] = {
+    "level": "other",
+    "text": "Partial (text readers; the binary TRR reader is outside). read_and_process_content with xyz_reader and lammpstrj_reader runs "
+            "on a fake file holding the written trajectory (1..2 atoms, a 12-atom count case, 2 frames; 3 thorough) cut at every token "
+            "boundary, inside every token (every character prefix of structural tokens; floats: a truncated token parses to a fresh "
+            "symbolic value) and before every newline, polled 1..2 times with growing cuts and then complete: no exception, never more "
+            "frames than completely written ones, finally every frame exactly once and in order, every returned value equal to the written "
+            "symbolic value (the solver would otherwise pick a differing truncated value), boxes included.",
+    "design_ref": "DESIGN.md section 3 C13 (H13)",
+    "note": "str.split/readline/int/float trusted; a proper prefix or the remaining suffix of a number parses to an arbitrary other number; "
+            "append-only writer; GromacsRunner.get_gromacs_frames / read_trr_* (struct-based) not covered",
+    "technique": TECH,
+}
 PENDING = "check not built yet in this revision (see DESIGN.md for the plan); no claim is made"
 NOT_APPLICABLE = {
     "C01": "statistical convergence of a whole stochastic sampler: no bounded symbolic encoding; its algebraic obligations are decided under C02/C04/C09/C10/C11",
     "C08": "quantifies over crash positions in a trace of OS file-system effects and the outcome of TOML/path parsers on truncated trees: not symbolically executable with the installed tools (fault enumeration is a different technique family)",
     "C19": "every clause is a round trip through C-level text/binary codecs (str.format/float, struct, re, genfromtxt): not executable on symbolic data here",
 }
-for _p in ["C13"]:
+for _p in []:
     if _p not in CLAIMS:
         NOT_APPLICABLE[_p] = PENDING
 NOTES = ("All checks: exit 0 held within the stated bounds; exit 1 + VIOLATION line only for a counterexample that was replayed "
